@@ -340,6 +340,7 @@ impl XorInterleaveMath {
 
 impl Aml for XorInterleaveMath {
     fn to_aml_bytes(&self, sink: &mut dyn AmlSink) {
+        assert!(self.bitmaps.len() <= u8::MAX as usize);
         sink.byte(CedtStructureType::Cxims as u8);
         sink.byte(0); // reserved
         sink.word(self.len() as u16);
